@@ -23,7 +23,7 @@ Definition ex_demo : prog :=
  (BDo (EExt LPrintf1 [(EStr "%v
 "%string); (EVar "ys"%string)])
  (BLet "total"%string (EExt LFold [(ELam ["acc"%string; "v"%string] (BRet (EBin OAdd (EVar "acc"%string) (EVar "v"%string)) false)); (EInt (0)%Z); (EVar "ys"%string)])
- (BLet "pt"%string (ERecord "Pt"%string ["X"%string; "Tag"%string] [(EVar "total"%string); (ECall "kind"%string 0 false [(EStr "b"%string)])])
+ (BLet "pt"%string (ERecord "Pt"%string ["X"%string; "Tag"%string] ["X"%string; "Tag"%string] [(EVar "total"%string); (ECall "kind"%string 0 false [(EStr "b"%string)])])
  (BLet "tag"%string (EField (EVar "pt"%string) "Tag"%string)
  (BLet "px"%string (EField (EVar "pt"%string) "X"%string)
  (BDo (EExt LPrintln [(EInterp [(inl "total="%string); (inr "px"%string); (inl " tag="%string); (inr "tag"%string)])])
@@ -50,6 +50,32 @@ Definition ex_effectful_pap : prog :=
  (BRet (EExt LPrintf1 [(EStr "%v
 "%string); (EExt LMap [(EVar "g"%string); (ESlice [(EInt (1)%Z); (EInt (2)%Z)])])]) true))))) |}.
 
+(** record literals written in an order other than the declaration's, with effectful initialisers, compared by [=] *)
+Definition ex_record_order : prog :=
+{| p_unions := [];
+   p_funs := [("noisy"%string, (["n"%string],
+ (BDo (EExt LPrintf1 [(EStr "n%d
+"%string); (EVar "n"%string)])
+ (BRet (EVar "n"%string) false)))); ("total"%string, (["o"%string],
+ (BRet (EBin OAdd (EField (EVar "o"%string) "Id"%string) (EField (EVar "o"%string) "Qty"%string)) false)))];
+   p_main := (BLet "a"%string (ERecord "Order"%string ["Id"%string; "Item"%string; "Qty"%string] ["Qty"%string; "Item"%string; "Id"%string] [(ECall "noisy"%string 0 false [(EInt (1)%Z)]); (EStr "x"%string); (ECall "noisy"%string 0 false [(EInt (2)%Z)])])
+ (BLet "b"%string (ERecord "Order"%string ["Id"%string; "Item"%string; "Qty"%string] ["Id"%string; "Item"%string; "Qty"%string] [(EInt (2)%Z); (EStr "x"%string); (EInt (1)%Z)])
+ (BLet "c"%string (ERecord "Order"%string ["Id"%string; "Item"%string; "Qty"%string] ["Item"%string; "Id"%string; "Qty"%string] [(EStr "y"%string); (ECall "noisy"%string 0 false [(EInt (3)%Z)]); (ECall "noisy"%string 0 false [(EInt (4)%Z)])])
+ (BDo (EExt LPrintf1 [(EStr "%v
+"%string); (EEq false (EVar "a"%string) (EVar "b"%string))])
+ (BDo (EExt LPrintf1 [(EStr "%v
+"%string); (EEq true (EVar "a"%string) (EVar "c"%string))])
+ (BDo (EExt LPrintf1 [(EStr "%v
+"%string); (EEq false (ERecord "Order"%string ["Id"%string; "Item"%string; "Qty"%string] ["Qty"%string; "Id"%string; "Item"%string] [(EInt (4)%Z); (EInt (3)%Z); (EStr "y"%string)]) (EVar "c"%string))])
+ (BDo (EExt LPrintf1 [(EStr "%d
+"%string); (EField (EVar "a"%string) "Id"%string)])
+ (BDo (EExt LPrintf1 [(EStr "%d
+"%string); (EField (EVar "a"%string) "Qty"%string)])
+ (BDo (EExt LPrintln [(EField (EVar "c"%string) "Item"%string)])
+ (BLet "mk"%string (ECall "total"%string 0 false [(ERecord "Order"%string ["Id"%string; "Item"%string; "Qty"%string] ["Qty"%string; "Id"%string; "Item"%string] [(ECall "noisy"%string 0 false [(EInt (10)%Z)]); (ECall "noisy"%string 0 false [(EInt (20)%Z)]); (EStr "z"%string)])])
+ (BRet (EExt LPrintf1 [(EStr "%d
+"%string); (EVar "mk"%string)]) true))))))))))) |}.
+
 Ltac wf_solve :=
   repeat first
     [ reflexivity
@@ -60,6 +86,8 @@ Ltac wf_solve :=
     | match goal with |- wfe _ _ _ => econstructor end
     | match goal with |- wfb _ _ _ => econstructor end
     | match goal with |- pure _ => constructor end
+    | match goal with |- fields_ok _ _ => unfold fields_ok end
+    | match goal with |- incl _ _ => let x := fresh in let I := fresh in intros x I; cbn in I |- *; tauto end
     | match goal with |- two_or_three _ => (left; reflexivity) || (right; reflexivity) end
     | match goal with |- ctor_declared _ _ _ _ => eexists; split; [cbn; eauto 10|cbn; eauto 10] end
     | match goal with |- True => exact I end
@@ -94,3 +122,12 @@ Lemma ex_effectful_pap_go :
   run_go 200 (compile_prog ex_effectful_pap) =
   ODone ("made" ++ nl ++ "arg" ++ nl ++ "11" ++ nl ++ "arg" ++ nl ++ "21" ++ nl ++ "arg" ++ nl ++ "arg" ++ nl ++ "[2 3]" ++ nl)%string.
 Proof. vm_compute. reflexivity. Qed.
+
+Lemma ex_record_order_pure : pap_args_pure ex_record_order.
+Proof. unfold pap_args_pure, wfp, ex_record_order; cbn [p_unions p_funs p_main]. wf_solve. Qed.
+Lemma ex_record_order_runs :
+  run_src 100 ex_record_order =
+  ODone ("n1" ++ nl ++ "n2" ++ nl ++ "n3" ++ nl ++ "n4" ++ nl ++ "true" ++ nl ++ "true" ++ nl ++ "true" ++ nl ++
+         "2" ++ nl ++ "1" ++ nl ++ "y" ++ nl ++ "n10" ++ nl ++ "n20" ++ nl ++ "30" ++ nl)%string /\
+  run_go 200 (compile_prog ex_record_order) = run_src 100 ex_record_order.
+Proof. vm_compute. split; reflexivity. Qed.
